@@ -68,8 +68,12 @@ func isEffectNode(info *types.Info, n ast.Node) bool {
 					eff = true
 				}
 			}
-		case *ast.GoStmt, *ast.DeferStmt:
+		case *ast.GoStmt, *ast.DeferStmt, *ast.SendStmt, *ast.SelectStmt:
 			eff = true
+		case *ast.UnaryExpr:
+			if x.Op == token.ARROW {
+				eff = true // a receive can block: the losing Close must return at once
+			}
 		}
 		return true
 	})
